@@ -24,6 +24,9 @@ import ast
 import collections
 import copy
 import gc
+import hashlib
+import json
+import os
 import random
 
 from .. import pyexpr_c03 as px
@@ -38,8 +41,9 @@ PARAMS = ['a', 'b', 'c', 'd']
 
 PLAN = {
     # (alphabet, n) lambda spaces; generator shell spaces; seeded random larger trees (count, sizes)
-    'quick': {'lambdas': [('bool', 3), ('wide2', 2)], 'gens': [('gen', 2)], 'random': None, 'parts': 4},
+    'quick': {'lambdas': [('bool', 3), ('wide2', 2)], 'gens': [('gen', 2)], 'eltgens': [('gencond', 4)], 'random': None, 'parts': 4},
     'thorough': {'lambdas': [('bool4', 3), ('cond', 5), ('boolc', 2), ('wide', 2)], 'gens': [('gen', 2), ('gencond', 3)],
+                 'eltgens': [('gencond', 4), ('gen', 3)],
                  'random': {'lambdas': [('wide', 1500, (3, 7)), ('bool', 1500, (5, 9))], 'gens': [('gen', 1500, (3, 8))]}, 'parts': 8},
 }
 
@@ -157,6 +161,53 @@ def gen_features(g):
 
 
 GEN_ONLY = ('ifexp-in-filter', 'ifexp-in-element-of-filtered-generator', 'and-or-as-operand-inside-filter')
+
+
+# -- the recorded wrong answers ------------------------------------------------------------------------------------------------
+# A source feature alone would be too coarse a signature: a *different* wrong tree for a source with a known feature - or a wrong
+# tree for such a source that decompiles correctly today - must still be reported.  For the enumerated (seed-independent) spaces the
+# known findings are therefore keyed by the pair (source, wrong tree): c03.known_wrong.json holds one digest per known
+# (source text, ast.dump of the decompiled tree).  A mismatch whose pair is not recorded gets the suffix :unrecorded-wrong-tree and
+# is a VIOLATION.  Seeded random trees (not enumerable in advance) fall back to the feature signature.
+# Re-record (only after triaging every new mismatch as an instance of a known finding):  VERIF_C03_RECORD=1 ./check C03 --tier thorough
+BASELINE_FILE = os.path.join(os.path.dirname(os.path.abspath(__file__)), 'c03.known_wrong.json')
+RECORDING = bool(os.environ.get('VERIF_C03_RECORD'))
+_recorded = set()
+
+
+def load_baseline():
+    try:
+        with open(BASELINE_FILE) as f:
+            data = json.load(f)['digests']
+    except (OSError, ValueError, KeyError):
+        return frozenset()
+    return frozenset(data[i:i + 12] for i in range(0, len(data), 12))
+
+
+BASELINE = load_baseline()
+
+
+def wrong_answer_key(src, tree):
+    return hashlib.sha1((src + ' => ' + safe_dump(tree)).encode()).hexdigest()[:12]
+
+
+def known_signature(kind, feats, src, tree, space):
+    sig = signature(kind, feats)
+    if not feats or space.startswith('random'):
+        return sig
+    key = wrong_answer_key(src, tree)
+    if RECORDING:
+        _recorded.add(key)
+        return sig
+    return sig if key in BASELINE else sig + ':unrecorded-wrong-tree'
+
+
+def save_baseline():
+    keys = sorted(_recorded | (BASELINE if os.environ.get('VERIF_C03_RECORD') == 'add' else set()))
+    with open(BASELINE_FILE, 'w') as f:
+        json.dump({'comment': 'digests (12 hex chars each, concatenated) of the known (source, wrong decompiled tree) pairs of the C03 '
+                              'findings in the enumerated spaces; see harness/props/c03.py', 'count': len(keys), 'digests': ''.join(keys)}, f)
+        f.write('\n')
 
 
 def signature(kind, feats):
@@ -348,7 +399,7 @@ def check_lambda_row(ctx, st, r, names, forms, space):
         else:
             what = 'lambda %s: decompiled to %s; with %s the source gives %s, the decompiled tree %s' % (
                 src, safe_unparse(tree), env, px.show(exp[i]), px.show(res[i]))
-        ctx.mismatch(signature('lambda', feats), what,
+        ctx.mismatch(known_signature('lambda', feats, src, tree, space), what,
                      {'kind': 'lambda', 'form': form, 'tree': e, 'names': list(names), 'space': space})
 
 
@@ -396,7 +447,7 @@ def check_gen_row(ctx, st, r, names, forms, space):
         st.c['gen_mismatch'] += 1
         if feats is None:
             feats = gen_features(g)
-        ctx.mismatch(signature('gen', feats), 'generator %s: decompiled to %s; %s' % (src, safe_unparse(tree), why),
+        ctx.mismatch(known_signature('gen', feats, src, tree, space), 'generator %s: decompiled to %s; %s' % (src, safe_unparse(tree), why),
                      {'kind': 'gen', 'form': form, 'tree': g, 'names': list(names), 'space': space})
 
 
@@ -525,6 +576,15 @@ def run(ctx):
         spaces.append('GenShells(%s, %d): %d generators' % (alpha, n, st.c['generators'] - before))
         gc.collect()
 
+    for alpha, n in plan['eltgens']:
+        A = px.alphabet(ctx.scratch, alpha, st.tlc)
+        before = st.c['generators']
+        for rows in px.run_jobs(ctx.scratch, px.eltgens_jobs(alpha, n, VALS, parts), st.tlc, workers=parts):
+            for r in rows:
+                check_gen_row(ctx, st, r, A['names'], gen_forms, 'element shells %s/%d' % (alpha, n))
+        spaces.append('ElementShells(%s, %d): %d generators' % (alpha, n, st.c['generators'] - before))
+        gc.collect()
+
     if plan['random']:
         rng = random.Random(ctx.seed)
         for alpha, count, (lo, hi) in plan['random']['lambdas']:
@@ -557,6 +617,9 @@ def run(ctx):
     if wide_rows:
         check_cache_pairs(ctx, st, wide_rows[0], wide_rows[1])
 
+    if RECORDING:
+        save_baseline()
+        print('recorded %d known (source, wrong tree) pairs in %s' % (len(_recorded), BASELINE_FILE))
     groups = [g for g in st.code_groups.values() if len(g) > 1]
     c = st.c
     rejected = sum(v for k, v in c.items() if '_rejected_' in k and not k.startswith('cachepair'))
@@ -578,6 +641,7 @@ def run(ctx):
         'cache_equal_bytecode_functions_checked_alive_together': c['cache_equal_bytecode_functions_checked_alive_together'],
         'ast_cache_entries_at_end': len(decompiling.ast_cache),
         'spaces': spaces,
+        'known_wrong_trees_recorded': len(BASELINE),
         'enumeration_equals_set': 'Len(ExprSeq(bool, 3)) = Cardinality(Exprs(bool, 3)) = %d (checked by TLC)' % sz['exprs'],
         'tlc': st.tlc,
         'rule': 'program = one compiled form (lambda with parameters / with globals / closure; generator at module level / in a function) '
